@@ -676,8 +676,8 @@ func runScanLimit(c *core.Ctx) {
 	why := fmt.Sprintf("LimitMatch guard: %v, Done()==false guard before it: %v", lmCall != nil, doneCall != nil)
 	if good {
 		// matcher built from the whole filter of this iteration; matched event is the tree element
-		mp := setOcc.Path(lmCall.Call.Args[0])
-		good = strings.Contains(mp, "NewReqFilterMatcher(p:"+scan.Params[1].Name()+"[*])") && setOcc.Path(doneCall.Call.Args[0]) == mp
+		mp := setOcc.Path(callRecv(&lmCall.Call))
+		good = strings.Contains(mp, "NewReqFilterMatcher(p:"+scan.Params[1].Name()+"[*])") && setOcc.Path(callRecv(&doneCall.Call)) == mp
 		why += "; matcher ← " + clip(mp, 80)
 	}
 	c.Check(good, nil, fname(c, scan), "scan-loop", P.Pos(set.Pos()), "an event enters the result only if Done() was false and LimitMatch (counting) accepted it, with a matcher built from the whole filter", "scan path does not respect the filter's limit: "+why)
